@@ -215,3 +215,127 @@ def builds_variant(body, adt_suffix, vname):
 def slice_view_tables(F, rep):
     from . import dt_tables
     dt_tables.slice_view_tables(F, rep)
+
+
+# --------------------------------------------------------------------------- linear-form oracles
+
+class LinOracles(Oracles):
+    """decides comparisons between affine integers by lazily refined integer intervals, one per linear form;
+    each undecided comparison is an oracle choice (so both outcomes are explored)"""
+
+    def __init__(self, script=()):
+        Oracles.__init__(self, script)
+        self.iv = {}   # canonical form -> [lo, hi]  (None = unbounded)
+        self.excl = {}  # canonical form -> excluded values
+        self.ncmp = 0
+
+    @staticmethod
+    def canon(d):
+        items = tuple(sorted((k, v) for k, v in d.items() if v != 0))
+        if not items:
+            return items, 1
+        if items[0][1] < 0:
+            return tuple((k, -v) for k, v in items), -1
+        return items, 1
+
+    def assume(self, d, lo=None, hi=None):
+        """assume lo <= sum(coef*atom) <= hi"""
+        f, s = self.canon(d)
+        if s < 0:
+            lo, hi = (None if hi is None else -hi), (None if lo is None else -lo)
+        cur = self.iv.setdefault(f, [None, None])
+        if lo is not None:
+            cur[0] = lo if cur[0] is None else max(cur[0], lo)
+        if hi is not None:
+            cur[1] = hi if cur[1] is None else min(cur[1], hi)
+
+    def rng(self, d, c):
+        f, s = self.canon(d)
+        lo, hi = self.iv.get(f, [None, None])
+        if s < 0:
+            lo, hi = (None if hi is None else -hi), (None if lo is None else -lo)
+        return (None if lo is None else lo + c), (None if hi is None else hi + c)
+
+    def decide(self, op, d, c):
+        """truth of (sum d + c) op 0, or None"""
+        if not d:
+            return {"Eq": c == 0, "Ne": c != 0, "Lt": c < 0, "Le": c <= 0, "Gt": c > 0, "Ge": c >= 0}[op]
+        lo, hi = self.rng(d, c)
+        if op == "Lt":
+            if hi is not None and hi < 0:
+                return True
+            if lo is not None and lo >= 0:
+                return False
+        elif op == "Le":
+            if hi is not None and hi <= 0:
+                return True
+            if lo is not None and lo > 0:
+                return False
+        elif op == "Gt":
+            if lo is not None and lo > 0:
+                return True
+            if hi is not None and hi <= 0:
+                return False
+        elif op == "Ge":
+            if lo is not None and lo >= 0:
+                return True
+            if hi is not None and hi < 0:
+                return False
+        elif op in ("Eq", "Ne"):
+            if lo is not None and hi is not None and lo == hi == 0:
+                return op == "Eq"
+            if (lo is not None and lo > 0) or (hi is not None and hi < 0):
+                return op == "Ne"
+            f, s_ = self.canon(d)
+            # E = s*Lc + c == 0  <=>  Lc == -c*s
+            if (-c * s_) in self.excl.get(f, ()):
+                return op == "Ne"
+        return None
+
+    def refine(self, op, d, c, truth):
+        """record that (sum d + c) op 0 has the given truth value"""
+        if not truth:
+            op = {"Lt": "Ge", "Le": "Gt", "Gt": "Le", "Ge": "Lt", "Eq": "Ne", "Ne": "Eq"}[op]
+        # E = L + c ; constraints on L
+        if op == "Lt":
+            self.assume(d, hi=-c - 1)
+        elif op == "Le":
+            self.assume(d, hi=-c)
+        elif op == "Gt":
+            self.assume(d, lo=-c + 1)
+        elif op == "Ge":
+            self.assume(d, lo=-c)
+        elif op == "Eq":
+            self.assume(d, lo=-c, hi=-c)
+        else:  # Ne: an excluded value (tightens the interval when it sits at an end)
+            f, s_ = self.canon(d)
+            self.excl.setdefault(f, set()).add(-c * s_)
+            lo, hi = self.rng(d, c)
+            if lo == 0:
+                self.assume(d, lo=-c + 1)
+            elif hi == 0:
+                self.assume(d, hi=-c - 1)
+
+    def unknown_compare(self, it, op, a, b):
+        fa, fb = bv.aff_of(a), bv.aff_of(b)
+        if fa is None or fb is None:
+            return None
+        d = dict(fa[0])
+        for k, v in fb[0].items():
+            d[k] = d.get(k, 0) - v
+        d = {k: v for k, v in d.items() if v != 0}
+        c = fa[1] - fb[1]
+        r = self.decide(op, d, c)
+        if r is not None:
+            return r
+        self.ncmp += 1
+        name = "%s %s 0" % (bv.aff_str((tuple(sorted(d.items())), c)), {"Lt": "<", "Le": "<=", "Gt": ">", "Ge": ">=", "Eq": "==", "Ne": "!="}[op])
+        # the name is the predicate itself: the same predicate asked again is already decided by the interval
+        v = self.choose("%s #%d" % (name, self.ncmp), (True, False))
+        self.refine(op, d, c, v)
+        self.observe("cmp", (name, v))
+        return v
+
+    def truth(self, op, da, ca):
+        """for specifications: truth of a predicate under the refined intervals (None if undetermined)"""
+        return self.decide(op, {k: v for k, v in da.items() if v != 0}, ca)
